@@ -274,7 +274,11 @@ claim(
     "number of concurrent growers, in every reachable state pos < allocated <= B*buffersPos with mutual exclusion of the "
     "resize section (C37_conc_inv, C37_conc_index_in_buffer, C37_conc_local), and over whole histories the claimed ranges "
     "tile [0, size) so each index is claimed exactly once (C37_ranges_tile, C37_ranges_cover_once, "
-    "C37_grow_returns_claim). Sequential tie: differential vs the value model under ASan; concurrent tie: traces under "
+    "C37_grow_returns_claim). The buffer-pointer tables are modelled separately (Model/ArenaTables.lean: table identities, "
+    "deleteLater_, reader snapshots between the two halves of operator[]): in every history no reader ever indexes a freed "
+    "table and, while the arena is alive, every table ever published is current or retained (C37_tables_no_uaf, "
+    "C37_tables_retained); tie: white-box sequential harness playing suspended readers across re-allocations (capacity, "
+    "entries, deleteLater_ size per allocateBuffer; ASan on the retired tables). Sequential tie: differential vs the value model under ASan; concurrent tie: traces under "
     "the deterministic scheduler replayed through the protocol model; native tie: the real ThreadSanitizer on lock-free "
     "readers (operator[], getBuffer) running against growers that cross table-capacity boundaries, which reports any read "
     "of a retired buffer-pointer table that is not ordered before its release.",
